@@ -46,11 +46,22 @@ def run(ctx):
             if not np.allclose(ana, series, rtol=2e-3, atol=0):
                 i = int(np.argmax(np.abs(ana / series - 1)))
                 viol(f"{window}/window-derivative/small-argument", f"{window}.dw_dlnkr at kR={xs[i]:.4g} is {ana[i]:.6g}, the true derivative is {series[i]:.6g}")
+            # at and below the top-hat's small-argument guard the closed form is replaced by a constant: absolute comparison with the series
+            if window == "TopHat":
+                xt = np.concatenate([10 ** np.linspace(-8, -3, 30), [1e-3, 9.99e-4, 5e-4]])
+                at = np.asarray(f.dw_dlnkr(xt), float)
+                st = -xt ** 2 / 5 + xt ** 4 / 70
+                ncase += len(xt)
+                if not np.all(np.abs(at - st) <= 2.5e-7):
+                    i = int(np.argmax(np.abs(at - st)))
+                    viol("TopHat/window-derivative/below-guard", f"TopHat.dw_dlnkr at kR={xt[i]:.4g} is {at[i]:.6g}, the true derivative is {st[i]:.6g} (allowed absolute error 2.5e-7)", {"kr": float(xt[i])})
         # slope vs numerical derivative of own sigma
         for rep in range(4 if quick else 40):
             cfg = dict(transfer_model=r.choice(["EH", "BBKS", "EH_NoBAO", "BondEfs"]), lnk_min=-14.0, lnk_max=11.0, dlnk=0.02,
                        Mmin=9.0, Mmax=15.5, dlog10m=0.01, z=r.choice([0.0, 1.0, 3.0]), filter_model=r.choice(["TopHat", "Gaussian", "SharpK", "SharpKEllipsoid"]),
                        cosmo_params=r.choice([{}, {"Om0": 0.25}]), hmf_model="SMT")
+            if rep < 4:
+                cfg["filter_model"] = ["SharpKEllipsoid", "TopHat", "SharpK", "Gaussian"][rep]      # every filter at least once (their dlnr/dlnm differ)
             mf = MassFunction(**copy.deepcopy(cfg))
             lns, lnm = np.log(mf.sigma), np.log(mf.m)
             num = np.gradient(lns, lnm)
